@@ -41,6 +41,18 @@ def isPanic {α} : Res α → Bool
 theorem bind_eq_ok {α β} {r : Res α} {a : α} (h : r = .ok a) (f : α → Res β) : (r >>= f) = f a := by
   subst h; rfl
 
+/-- inversion: a `do` block that succeeded had a successful first step -/
+theorem bind_ok_inv {α β} {r : Res α} {f : α → Res β} {b : β} (h : (r >>= f) = .ok b) :
+    ∃ a, r = .ok a ∧ f a = .ok b := by
+  cases r with
+  | ok a => exact ⟨a, rfl, h⟩
+  | err e => exact absurd h (by intro h'; cases h')
+  | panic e => exact absurd h (by intro h'; cases h')
+
+theorem ok_inj {α} {a b : α} (h : (Res.ok a : Res α) = .ok b) : a = b := by cases h; rfl
+
+theorem pure_ok_inv {α} {a b : α} (h : (pure a : Res α) = .ok b) : a = b := by cases h; rfl
+
 end Res
 
 /-- A reader over the unread input; returns the value and the unread remainder. -/
